@@ -83,10 +83,10 @@ func zzC01(n int, storeKind int) {
 func ZZ_C01_sparse_n1() { zzC01(1, 0) }
 func ZZ_C01_sparse_n2() { zzC01(2, 0) }
 func ZZ_C01_sparse_n3() { zzC01(3, 0) }
-func ZZ_C01_dense_n2_T()  { zzC01(2, 1) }
+func ZZ_C01_dense_n2_X()  { zzC01(2, 1) }
 func ZZ_C01_pag_n2()    { zzC01(2, 2) }
 func ZZ_C01_sparse_n4_T() { zzC01(4, 0) }
-func ZZ_C01_dense_n3_T()  { zzC01(3, 1) }
+func ZZ_C01_dense_n3_X()  { zzC01(3, 1) }
 func ZZ_C01_pag_n3_T()    { zzC01(3, 2) }
 
 func zzNear(i, j, d int) bool { return zzvAnd(i-j <= d, j-i <= d) }
